@@ -424,6 +424,55 @@ func genSchedule(rng *rand.Rand, family string, depth int) *Schedule {
 			}
 		}
 		return sc
+	case "smptlv":
+		// an authenticated message that carries an SMP TLV and a "disconnected" TLV (either order), at
+		// each of the four SMP steps; afterwards the parties start over
+		sc.Setup = "ake"
+		sc.Frag = map[string]int{}
+		sc.Pol["A"], sc.Pol["B"] = 1, 1
+		if genIdx%2 == 1 {
+			sc.Pol["A"], sc.Pol["B"] = 3, 3
+		}
+		{
+			which := (genIdx / 2) % 4
+			variant := 5 + (genIdx/8)%2
+			ini, oth := "A", "B"
+			if (genIdx/16)%2 == 1 {
+				ini, oth = "B", "A"
+			}
+			add(Step{A: "SMPStart", P: ini, S: 1, Q: (genIdx/32)%2 == 1})
+			if which == 0 {
+				add(Step{A: "SMPTamper", P: oth, I: variant})
+			} else {
+				add(Step{A: "Deliver", P: oth})
+			}
+			add(Step{A: "SMPAnswer", P: oth, S: 1})
+			if which == 1 {
+				add(Step{A: "SMPTamper", P: ini, I: variant})
+			} else {
+				add(Step{A: "Deliver", P: ini})
+			}
+			if which == 2 {
+				add(Step{A: "SMPTamper", P: oth, I: variant})
+			} else {
+				add(Step{A: "Deliver", P: oth})
+			}
+			if which == 3 {
+				add(Step{A: "SMPTamper", P: ini, I: variant})
+			} else {
+				add(Step{A: "Deliver", P: ini})
+			}
+			for k := 0; k < 3; k++ {
+				add(Step{A: "Deliver", P: "A"})
+				add(Step{A: "Deliver", P: "B"})
+			}
+			add(Step{A: "Recover", P: "A"})
+			add(Step{A: "Send", P: "A", T: 9001})
+			add(Step{A: "Send", P: "B", T: 9002})
+			add(Step{A: "Deliver", P: "B"})
+			add(Step{A: "Deliver", P: "A"})
+		}
+		return sc
 	case "smpdeg":
 		// systematic: an authenticated SMP message 2 whose group elements are degenerate but whose
 		// proofs are consistent (Pb or Qb not invertible, written as 0 or as the modulus), under both
@@ -465,6 +514,9 @@ func genSchedule(rng *rand.Rand, family string, depth int) *Schedule {
 			}
 			which := rng.Intn(4)
 			variant := rng.Intn(100000)
+			for variant%13 == 5 || variant%13 == 6 {
+				variant = rng.Intn(100000) // the session-ending combinations belong to family smptlv
+			}
 			add(Step{A: "SMPStart", P: ini, S: 1, Q: rng.Intn(2) == 0})
 			if which == 0 {
 				add(Step{A: "SMPTamper", P: oth, I: variant})
@@ -510,11 +562,30 @@ func genSchedule(rng *rand.Rand, family string, depth int) *Schedule {
 			sc.Pol["A"], sc.Pol["B"] = 1, 1
 		}
 		sc.Frag = map[string]int{}
-		add(Step{A: "FailRand", P: ps[rng.Intn(2)], I: rng.Intn(depth), Q: rng.Intn(2) == 0})
-		add(Step{A: "Query", P: "A"})
-		for k := 0; k < 4; k++ {
-			add(Step{A: "Deliver", P: "B"})
-			add(Step{A: "Deliver", P: "A"})
+		if rng.Intn(3) == 0 {
+			// both sides start at the same moment (crossing DH-Commits: one side gives way and draws a
+			// new exponent), the failing read is among the first ones, and the exchange is played out
+			add(Step{A: "FailRand", P: ps[rng.Intn(2)], I: rng.Intn(10), Q: rng.Intn(2) == 0})
+			add(Step{A: "Query", P: "A"})
+			add(Step{A: "Query", P: "B"})
+			for k := 0; k < 7; k++ {
+				add(Step{A: "Deliver", P: "B"})
+				add(Step{A: "Deliver", P: "A"})
+			}
+			if rng.Intn(2) == 0 {
+				add(Step{A: "Query", P: ps[rng.Intn(2)]})
+				for k := 0; k < 5; k++ {
+					add(Step{A: "Deliver", P: "B"})
+					add(Step{A: "Deliver", P: "A"})
+				}
+			}
+		} else {
+			add(Step{A: "FailRand", P: ps[rng.Intn(2)], I: rng.Intn(depth), Q: rng.Intn(2) == 0})
+			add(Step{A: "Query", P: "A"})
+			for k := 0; k < 4; k++ {
+				add(Step{A: "Deliver", P: "B"})
+				add(Step{A: "Deliver", P: "A"})
+			}
 		}
 		for k := 0; k < 3; k++ {
 			text++
